@@ -17,6 +17,7 @@ import (
 
 	"storj.io/drpc"
 	"storj.io/drpc/drpcconn"
+	"storj.io/drpc/drpcdebug"
 	"storj.io/drpc/drpcerr"
 	"storj.io/drpc/drpcmanager"
 	"storj.io/drpc/drpcmetadata"
@@ -140,7 +141,47 @@ func short(s string) string {
 
 var ErrInjected = errors.New("injected transport failure")
 
+// protocol events of the managers of the world currently under test (drpcdebug.Event hook)
+var (
+	evMu     sync.Mutex
+	evOrder  []string            // manager keys in order of first appearance
+	evTraces map[string][]string // manager key -> events "name:id"
+)
+
+func init() {
+	drpcdebug.SetEventHook(func(obj interface{}, name string, id uint64) {
+		key := fmt.Sprintf("%p", obj)
+		evMu.Lock()
+		if evTraces == nil {
+			evTraces = map[string][]string{}
+		}
+		if _, ok := evTraces[key]; !ok {
+			evOrder = append(evOrder, key)
+		}
+		evTraces[key] = append(evTraces[key], fmt.Sprintf("%s:%d", name, id))
+		evMu.Unlock()
+	})
+}
+
+// ResetEvents forgets the recorded manager events; TakeEvents returns them per manager.
+func ResetEvents() {
+	evMu.Lock()
+	evOrder, evTraces = nil, map[string][]string{}
+	evMu.Unlock()
+}
+
+func TakeEvents() [][]string {
+	evMu.Lock()
+	defer evMu.Unlock()
+	var out [][]string
+	for _, k := range evOrder {
+		out = append(out, append([]string(nil), evTraces[k]...))
+	}
+	return out
+}
+
 func NewWorld(cfg Config) *World {
+	ResetEvents()
 	w := &World{D: director.New(), Cfg: cfg, streams: map[int]drpc.Stream{}, ctxs: map[int]context.CancelFunc{},
 		ctxv: map[int]context.Context{}, seen: map[string]bool{}, enc: &sm.Enc{}}
 	w.P, w.A, w.B = director.NewPipe()
